@@ -12,6 +12,9 @@
 //	rep   Bridge.reportTrafficStats under a forced interleaving (gated CloudControl)
 //	brg   Bridge.Close, cleanup report racing the periodic goroutine's final report
 //	sp    StreamProcessor.Close against an in-flight ReadPacket/WritePacket (gated transport)
+//	bat   Bridge.Close and connections attached between Close calls (late SetTarget/SetSourceConnection)
+//	bg    Close while the storage cleaner / session sweep is mid-tick (storage lock held by a parked reader)
+//	tst   Tunnel.Start parked at its interface calls (manager.Ctx(), log) while Close calls run to completion
 //	flow  started Bridge with data in flight: EOF / endpoint error / Close / parent-context cancel; totals vs bytes delivered
 //	mgr   memory storage / SessionManager Close × N, background goroutines gone afterwards
 package main
@@ -38,7 +41,7 @@ func exec(caseStr string) (obs string) {
 			obs = "panic " + sanitize(fmt.Sprint(r))
 		}
 	}()
-	return withWatchdog(120*time.Second, func() string {
+	return withWatchdog(4*patient(), func() string {
 		switch t[0] {
 		case "disp":
 			return runDisp(t)
@@ -54,6 +57,12 @@ func exec(caseStr string) (obs string) {
 			return runMgr(t)
 		case "flow":
 			return runFlow(t)
+		case "tst":
+			return runTst(t)
+		case "bg":
+			return runBg(t)
+		case "bat":
+			return runBat(t)
 		}
 		return "bad case"
 	})
@@ -61,9 +70,55 @@ func exec(caseStr string) (obs string) {
 
 var secondsByKind = map[string]float64{}
 
-func emit(out *vc.Out, key, caseStr string) {
-	t0 := time.Now()
+var timeoutsRetried, timeoutsConfirmed int
+
+// suspect: the observation is a verdict that depends on how long the harness waited.
+func suspect(obs string) bool {
+	if strings.Contains(obs, "timeout") || strings.Contains(obs, "stuck") {
+		return true
+	}
+	f := strings.Fields(obs)
+	for i := 0; i+1 < len(f); i++ {
+		if (f[i] == "leak" || f[i] == "live") && f[i+1] != "0" {
+			return true
+		}
+	}
+	return false
+}
+
+// execPatient runs a case; a wait-dependent verdict is re-run alone up to three times with the
+// patience doubled and is reported only if it shows up every time.
+func execPatient(caseStr string) string {
+	patience.Store(1)
 	obs := exec(caseStr)
+	if !suspect(obs) {
+		return obs
+	}
+	timeoutsRetried++
+	tries := 3
+	if timeoutsConfirmed > 0 {
+		tries = 1 // the tree hangs or leaks for real: do not spend the full budget on every case
+	}
+	patience.Store(2)
+	defer patience.Store(1)
+	for try := 0; try < tries; try++ {
+		time.Sleep(200 * time.Millisecond) // let stray goroutines of the previous attempt finish
+		again := exec(caseStr)
+		if !suspect(again) {
+			return again
+		}
+		obs = again
+	}
+	timeoutsConfirmed++
+	return obs
+}
+
+func emit(out *vc.Out, key, caseStr string) {
+	if timeoutsConfirmed >= 3 {
+		return // three confirmed hangs/leaks are reported; the rest of the run would only wait
+	}
+	t0 := time.Now()
+	obs := execPatient(caseStr)
 	kind := strings.Fields(caseStr)[0]
 	secondsByKind[kind] += time.Since(t0).Seconds()
 	out.Count(kind)
@@ -220,6 +275,79 @@ func gen(out *vc.Out, r *vc.Rand, thorough bool) {
 	}
 	emit(out, "", fmt.Sprintf("sp op z chunks 0 cut -1 n 16 rep %d %s", 50*mul, ms()))
 
+	// bat: histories of Close / late attach (each side attached only while its field is empty), always
+	// ended by the last Close; every history of length ≤ 4 over {c, t, s, ct, cs, cc}, then longer random ones
+	batOps := []string{"c", "t", "s", "ct", "cs", "cc"}
+	var batHist func(prefix []string, srcSet, tgtSet bool, depth int)
+	batHist = func(prefix []string, srcSet, tgtSet bool, depth int) {
+		if len(prefix) > 0 {
+			h := append(append([]string{}, prefix...), "c")
+			emit(out, "", fmt.Sprintf("bat start %d h %d %s rep %d %s", len(h)%2, len(h), strings.Join(h, " "), mul, ms()))
+		}
+		if depth == 0 {
+			return
+		}
+		for _, op := range batOps {
+			s2, t2 := srcSet, tgtSet
+			switch op {
+			case "c", "cc":
+				s2, t2 = false, false
+			case "t":
+				if tgtSet {
+					continue
+				}
+				t2 = true
+			case "s":
+				if srcSet {
+					continue
+				}
+				s2 = true
+			case "ct":
+				if tgtSet {
+					continue
+				}
+				s2, t2 = false, true // the attach may land after the racing Close
+			case "cs":
+				if srcSet {
+					continue
+				}
+				s2, t2 = true, false
+			}
+			batHist(append(prefix, op), s2, t2, depth-1)
+		}
+	}
+	depth := 2
+	if thorough {
+		depth = 3
+	}
+	batHist(nil, true, false, depth)
+
+	// bg: Close while a background loop of the component is in the middle of a tick
+	for _, order := range []string{"close", "tick"} {
+		for _, n := range []int{1, 2, 4} {
+			emit(out, "", fmt.Sprintf("bg kind st order %s n %d rep %d %s", order, n, mul, ms()))
+		}
+	}
+	for _, n := range []int{1, 4} {
+		emit(out, "", fmt.Sprintf("bg kind sm order sweep n %d rep %d %s", n, 3*mul, ms()))
+	}
+
+	// tst: Close interleaved with Tunnel.Start at every injectable point of Start:
+	// every (closer kind × gate), then groups spread over the gates
+	for _, c := range []string{"c0", "c3", "p", "a", "x"} {
+		for g := 0; g <= 3; g++ {
+			emit(out, "", fmt.Sprintf("tst cl 1 %s@%d rep %d %s", c, g, mul, ms()))
+		}
+	}
+	for i := 0; i < 12*mul; i++ {
+		n := 2 + r.Intn(5)
+		cl := make([]string, n)
+		for j := range cl {
+			cl[j] = fmt.Sprintf("%s@%d", vc.Pick(r, tunClosers), r.Intn(4))
+		}
+		emit(out, "", fmt.Sprintf("tst cl %d %s rep %d %s", n, strings.Join(cl, " "), 3*mul, ms()))
+	}
+
 	// flow: data in flight, every completion path of the bridge; the totals are compared with the
 	// bytes the fake target endpoint accepted
 	for _, mode := range []string{"eof", "err", "werr", "close"} {
@@ -265,7 +393,7 @@ func main() {
 	stats := flag.String("stats", "", "stats file")
 	noGen := flag.Bool("nogen", false, "only replay the corpus files")
 	flag.Parse()
-	corelog.SetDefault(corelog.NewNopLogger())
+	corelog.SetDefault(theLogger)
 	out := vc.NewOut()
 	// warm-up: lazily started process-wide goroutines must exist before any baseline
 	exec("tun init 1 role 0 tgt 1 cl 1 c0 rep 1 ms 0")
@@ -278,5 +406,5 @@ func main() {
 	if !*noGen {
 		gen(out, vc.NewRand(*seed), *tier == "thorough")
 	}
-	out.Finish(*stats, map[string]any{"seconds_by_kind": secondsByKind})
+	out.Finish(*stats, map[string]any{"seconds_by_kind": secondsByKind, "timeouts_retried": timeoutsRetried, "timeouts_confirmed": timeoutsConfirmed})
 }
